@@ -288,3 +288,196 @@ def add_spec_select(ctx: C.Ctx, add) -> None:
                             add("spec.select %d %d %d %d %s %s" % (v4, em, st, me, a, b),
                                 table_7_6_5(bool(v4), bool(em), bool(st), bool(me), a, b),
                                 ("twin-select", {"row": [v4, em, st, me, a, b]}))
+
+
+# ----------------------------------------------------------------------------- key derivation, function by function
+
+def add_kdf(ctx: C.Ctx, add) -> None:
+    """compute_encryption_key, compute_u, the owner path of authenticate_owner_password and _password_hash called
+    directly on generated handler states (O / U / ID of any length, not only those a writer produces) and compared
+    with the Lean model (primitive values from hashlib / cryptography via the reference implementation's log) and with
+    the reference implementation written from the standard."""
+    import pdfminer.pdfdocument as PD
+    from harness import c10_ref as R
+    rng = ctx.rng
+    rows = []
+    try:
+        for i in range(ctx.n(40, 600)):
+            r = rng.choice([2, 3, 3, 4, 4])
+            length = 40 if r == 2 and rng.random() < 0.7 else 128 if r == 4 else rng.choice([40, 56, 64, 96, 128])
+            o = bytes(rng.randrange(256) for _ in range(rng.choice([32, 32, 32, 0, 16, 48])))
+            id0 = bytes(rng.randrange(256) for _ in range(rng.choice([16, 16, 0, 5, 32])))
+            em = rng.random() < 0.5
+            p = rng.choice([0, 0xFFFFFFFC, 0xFFFFF0C0, rng.randrange(1 << 32)])
+            pw = bytes(rng.randrange(256) for _ in range(rng.choice([0, 1, 8, 31, 32, 33, 40])))
+            cls = PD.PDFStandardSecurityHandlerV4 if r == 4 else PD.PDFStandardSecurityHandler
+            h = object.__new__(cls)
+            h.r, h.o, h.u, h.p, h.length, h.docid = r, o, bytes(32), p, length, [id0, id0]
+            h.encrypt_metadata = em
+            rows.append((h, None, r, length, p, o, id0, em, pw, None))
+    finally:
+        pass
+    # the reference module's function names are not part of this file's contract: compute the primitive values here
+    import hashlib
+    table: Dict[Tuple[str, bytes, bytes, bytes], bytes] = {}
+    pad = bytes.fromhex("28bf4e5e4e758a4164004e56fffa01082e2e00b6d0683e802f0ca9fe6453697a")
+
+    def md5(b: bytes) -> bytes:
+        d = hashlib.md5(b).digest()
+        table[("md5", b, b"", b"")] = d
+        return d
+
+    def std_key(r, length, p, o, id0, em, pw) -> bytes:
+        """ISO 32000-1 Algorithm 2."""
+        d = md5((pw + pad)[:32] + o + p.to_bytes(4, "little") + id0 + (b"\xff\xff\xff\xff" if r >= 4 and not em else b""))
+        n = 5 if r == 2 else length // 8
+        if r >= 3:
+            for _ in range(50):
+                d = md5(d[:n])
+        return d[:n]
+
+    def std_u(r, id0, key) -> bytes:
+        """Algorithms 4 / 5 (the 16 arbitrary bytes of Algorithm 5: pdfminer repeats the first 16)."""
+        if r == 2:
+            return R.rc4(key, pad)
+        x = R.rc4(key, md5(pad + id0))
+        for i in range(1, 20):
+            x = R.rc4(bytes(c ^ i for c in key), x)
+        return x + x
+
+    def std_recover(r, length, o, pw) -> bytes:
+        """Algorithm 7 steps a-b: the (padded) user password recovered from O."""
+        d = md5((pw + pad)[:32])
+        if r >= 3:
+            for _ in range(50):
+                d = md5(d)
+        k = d[:5 if r == 2 else length // 8]
+        if r == 2:
+            return R.rc4(k, o)
+        x = o
+        for i in range(19, -1, -1):
+            x = R.rc4(bytes(c ^ i for c in k), x)
+        return x
+    out_rows = []
+    for (h, cfg, r, length, p, o, id0, em, pw, _ref) in rows:
+        def call(f, *a):
+            try:
+                return hx(f(*a))
+            except Exception as e:  # noqa: BLE001
+                return "EXC:" + type(e).__name__
+        k_impl = call(h.compute_encryption_key, pw)
+        k_std = std_key(r, length, p, o, id0, em, pw)
+        out_rows.append(("kdf.key %d %d %d %s %s %s %s" % (r, length, p, hx(o), hx(id0), "1" if em else "0", hx(pw)),
+                         k_impl, hx(k_std), "compute_encryption_key differs from Algorithm 2",
+                         {"kdf": "key", "r": r, "length": length, "p": p, "o": o.hex(), "id0": id0.hex(), "em": em,
+                          "pw": pw.hex()}))
+        key = k_std if k_std else b"\x01"
+        u_impl = call(h.compute_u, key)
+        out_rows.append(("kdf.u %d %s %s" % (r, hx(id0), hx(key)), u_impl, hx(std_u(r, id0, key)),
+                         "compute_u differs from Algorithms 4 / 5",
+                         {"kdf": "u", "r": r, "id0": id0.hex(), "key": key.hex()}))
+        seen: List[bytes] = []
+        h.authenticate_user_password = lambda b, _s=seen: (_s.append(bytes(b)), None)[1]
+        try:
+            h.authenticate_owner_password(pw)
+            rec_impl = hx(seen[0]) if seen else "no-call"
+        except Exception as e:  # noqa: BLE001
+            rec_impl = "EXC:" + type(e).__name__
+        finally:
+            del h.__dict__["authenticate_user_password"]
+        out_rows.append(("kdf.recover %d %d %s %s" % (r, length, hx(o), hx(pw)), rec_impl,
+                         hx(std_recover(r, length, o, pw)), "authenticate_owner_password recovers a different user password than Algorithm 7",
+                         {"kdf": "recover", "r": r, "length": length, "o": o.hex(), "pw": pw.hex()}))
+    # revision 5 / 6 hashes through the model (primitive values logged by the reference Algorithm 2.B)
+    R.PRIM_LOG = {}
+    hrows = []
+    try:
+        for i in range(ctx.n(10, 120)):
+            r = 5 if i % 5 == 4 else 6
+            pw = bytes(rng.randrange(256) for _ in range(rng.choice([0, 1, 7, 32, 127])))
+            salt = bytes(rng.randrange(256) for _ in range(8 if i % 3 else rng.choice([8, 16, 3, 0])))
+            vec = bytes(rng.randrange(256) for _ in range(48)) if i % 2 else b""
+            h5 = object.__new__(PD.PDFStandardSecurityHandlerV5)
+            h5.r = r
+            try:
+                got = hx(h5._password_hash(pw, salt, vec if vec else None))
+            except Exception as e:  # noqa: BLE001
+                got = "EXC:" + type(e).__name__
+            ref = (R.hash_r5 if r == 5 else R.hash_2b)(pw, salt[:8] if r == 6 else salt, vec)
+            hrows.append(("kdf.hash %d %s %s %s" % (r, hx(pw), hx(salt), hx(vec)), got, hx(ref),
+                          "the revision %d password hash differs from the standard's" % r,
+                          {"pwhash": {"r": r, "pw": pw.hex(), "salt": salt.hex(), "vector": vec.hex() if vec else None}}))
+        table.update(R.PRIM_LOG)
+    finally:
+        R.PRIM_LOG = None
+    check_digest_lengths(ctx, table)
+    add("primreset", None, None)
+    for (kind, a, b, c), out in table.items():
+        add("prim %s %s %s %s %s" % (kind, hx(a), hx(b), hx(c), hx(out)), None, None)
+    for line, impl, std, what, inp in out_rows + hrows:
+        op = line.split(" ")[0]
+        ctx.case((op, line), True, branch=op + ":R" + line.split(" ")[1])
+        if impl != std:
+            ctx.fail(C.Failure(what, inp, std[:120], impl[:120], {"kind": "kdf", "op": op}))
+        add(line, impl, (op, inp))
+
+
+def replay_kdf(ctx: C.Ctx, j: Dict[str, Any]) -> None:
+    """Re-run one function-level key-derivation case on the implementation against the standard."""
+    import pdfminer.pdfdocument as PD
+    import hashlib
+    from harness import c10_ref as R
+    pad = bytes.fromhex("28bf4e5e4e758a4164004e56fffa01082e2e00b6d0683e802f0ca9fe6453697a")
+    md5 = lambda b: hashlib.md5(b).digest()  # noqa: E731
+    r = j["r"]
+    cls = PD.PDFStandardSecurityHandlerV4 if r == 4 else PD.PDFStandardSecurityHandler
+    h = object.__new__(cls)
+    h.r, h.length, h.u = r, j.get("length", 40), bytes(32)
+    h.o = bytes.fromhex(j.get("o", ""))
+    h.p = j.get("p", 0)
+    h.docid = [bytes.fromhex(j.get("id0", ""))] * 2
+    h.encrypt_metadata = j.get("em", True)
+    n = 5 if r == 2 else h.length // 8
+    ctx.case(("kdf", json_key(j)), True, branch="replay")
+    if j["kdf"] == "key":
+        pw = bytes.fromhex(j["pw"])
+        d = md5((pw + pad)[:32] + h.o + h.p.to_bytes(4, "little") + h.docid[0] + (b"\xff\xff\xff\xff" if r >= 4 and not h.encrypt_metadata else b""))
+        if r >= 3:
+            for _ in range(50):
+                d = md5(d[:n])
+        want, got = d[:n], h.compute_encryption_key(pw)
+    elif j["kdf"] == "u":
+        key = bytes.fromhex(j["key"])
+        if r == 2:
+            want = R.rc4(key, pad)
+        else:
+            x = R.rc4(key, md5(pad + h.docid[0]))
+            for i in range(1, 20):
+                x = R.rc4(bytes(c ^ i for c in key), x)
+            want = x + x
+        got = h.compute_u(key)
+    else:
+        pw = bytes.fromhex(j["pw"])
+        d = md5((pw + pad)[:32])
+        if r >= 3:
+            for _ in range(50):
+                d = md5(d)
+        k = d[:n]
+        if r == 2:
+            want = R.rc4(k, h.o)
+        else:
+            want = h.o
+            for i in range(19, -1, -1):
+                want = R.rc4(bytes(c ^ i for c in k), want)
+        seen: List[bytes] = []
+        h.authenticate_user_password = lambda b: (seen.append(bytes(b)), None)[1]
+        h.authenticate_owner_password(pw)
+        got = seen[0] if seen else b"no-call"
+    if got != want:
+        ctx.fail(C.Failure("key derivation (%s) differs from the standard's algorithm" % j["kdf"], j, want.hex(), got.hex(),
+                           {"kind": "kdf", "op": "kdf." + j["kdf"]}))
+
+
+def json_key(j: Dict[str, Any]) -> str:
+    import json
+    return json.dumps(j, sort_keys=True)
